@@ -687,7 +687,7 @@ func c36EmitVariants(g *core.Gen) {
 			switch g.Intn(3) {
 			case 0:
 				// a doubled quote, an explicit exponent sign, a leading dot
-				tb[i].text = core.Pick(g, []string{"'it''s'", "\"say \"\"hi\"\"\"", "''''", "'''a'", "'a'''", "1e+5", "2E+10", "1.5e+3", ".5", ".25"})
+				tb[i].text = core.Pick(g, []string{"'it''s'", "\"say \"\"hi\"\"\"", "''''", "'''a'", "'a'''", "1e+5", "2E+10", "1.5e+3", ".5", ".25", ".05", ".005", ".0", ".95", ".0e1"})
 				tag = "variant-literal-spelling-2"
 			case 1:
 				// hex/bit strings (glued to the operator when the layout is tight)
@@ -1012,7 +1012,7 @@ func c36ListContent(g *core.Gen, elems []string, busy bool) string {
 func c36ThLiteral(g *core.Gen, numeric bool) string {
 	if numeric || g.Intn(2) == 0 {
 		if g.Intn(4) == 0 {
-			return core.Pick(g, []string{"1e+5", "2E+10", "1.5e+3", ".5", ".25", "-5", "+7", "-0.5", "-1.5e-3", "+0.5e1"})
+			return core.Pick(g, []string{"1e+5", "2E+10", "1.5e+3", ".5", ".25", ".05", ".005", ".0", ".95", "-5", "+7", "-0.5", "-1.5e-3", "+0.5e1"})
 		}
 		return c36Number(g)
 	}
